@@ -138,6 +138,7 @@ Proof.
     destruct (col_of fld row) as [c|] eqn:Ec; [|discriminate]. inversion E; subst. destruct (C c eq_refl) as [P _].
     rewrite <- (col_of_length _ _ _ Ec). apply slice_valid. exact P.
   - unfold LastFrac_call in E. destruct (rm (Z.of_nat (length row)) f) as [n|]; [|discriminate].
+    destruct (Z.of_nat (length row) <=? n)%Z; [inversion E; subst; exact VA|].
     destruct (col_of fld row) as [c|] eqn:Ec; [|discriminate]. inversion E; subst. destruct (C c eq_refl) as [P _].
     rewrite <- (col_of_length _ _ _ Ec). apply slice_valid. exact P.
 Qed.
